@@ -35,8 +35,9 @@ ALPHA = {
     'mixed': ('x', 1, 2.5),       # object keys that cannot be sorted: forces the non-sorting path
     'float': (0.5, 1.5, -2.0),
     'bool': (True, False),
+    'datens': (np.datetime64('2020-01-01T00:00:00.000000001', 'ns'), np.datetime64('2020-01-02T00:00:00', 'ns'), np.datetime64('2019-06-01T12:00:00', 'ns')),
 }
-DT = {'int': 'int64', 'str': '<U1', 'mixed': 'object', 'float': 'float64', 'bool': 'bool'}
+DT = {'int': 'int64', 'str': '<U1', 'mixed': 'object', 'float': 'float64', 'bool': 'bool', 'datens': 'datetime64[ns]'}
 LABELS = ['q', 'c', 'x', 'a', 'm', 'b']
 
 
@@ -69,7 +70,7 @@ def cases(tier):
             for li in range(3):
                 for axis in (0, 1):
                     yield ('frame_group1', alpha, n, li, axis)
-    for a1, a2 in (('int', 'int'), ('int', 'str'), ('mixed', 'int'), ('str', 'bool')):
+    for a1, a2 in (('int', 'int'), ('int', 'str'), ('mixed', 'int'), ('str', 'bool'), ('datens', 'datens')):
         for n in range(1, sc['n2'] + 1):
             for li in range(3):
                 for sh in shards((len(ALPHA[a1]) * len(ALPHA[a2])) ** n):
@@ -93,7 +94,7 @@ def universe(tier):
 
 def pykey(k):
     if isinstance(k, np.ndarray):
-        return tuple(pykey(x) for x in k.tolist())
+        return tuple(pykey(x) for x in k)      # element-wise (tolist() would turn datetime64[ns] into integers)
     if isinstance(k, (tuple, list)):
         return tuple(pykey(x) for x in k)
     n = norm(k)
@@ -205,7 +206,7 @@ def run_series_many_keys(case, ctx):
         try:
             items = list(s.iter_group_items())
             check_partition(ctx, 'series.iter_group_items|many-keys', items, list(vec), labels, [(norm(v),) for v in vec],
-                            lambda g: g.index.values.tolist(), lambda g: [(norm(v),) for v in g.values.tolist()], info)
+                            lambda g: g.index.values.tolist(), lambda g: [(norm(v),) for v in g.values], info)
             f = sf.Frame.from_items((('k', arr(vec, 'int64')), ('pos', arr(list(range(n)), 'int64'))), index=labels, name='fn')
             itf = list(f.iter_group_items('k'))
             check_partition(ctx, 'frame.iter_group_items|many-keys', itf, list(vec), labels, frame_rows(f), lambda g: g.index.values.tolist(), frame_rows, info)
@@ -232,13 +233,13 @@ def run_series_group(case, ctx):
             ctx.violation(f'series.iter_group|raises|{type(e).__name__}', **info, error=repr(e))
             continue
         check_partition(ctx, 'series.iter_group_items', items, list(vec), labels, [(norm(v),) for v in vec],
-                        lambda g: g.index.values.tolist(), lambda g: [(norm(v),) for v in g.values.tolist()], info)
+                        lambda g: g.index.values.tolist(), lambda g: [(norm(v),) for v in g.values], info)
         if [norm(g.index.values.tolist()) for g in groups] != [norm(g.index.values.tolist()) for _, g in items]:
             ctx.violation('series.iter_group|differs-from-items', **info)
         if n:
             ap = s.iter_group_items().apply(lambda k, g: len(g))
             exp = {k: len(v) for k, v in ref_groups(list(vec)).items()}
-            got = {pykey(k): int(v) for k, v in zip(ap.index.values.tolist(), ap.values.tolist())}
+            got = {pykey(k): int(v) for k, v in zip(list(ap.index.values), ap.values.tolist())}
             if got != exp:
                 ctx.violation('series.iter_group_items.apply', **info, got=got, expected=exp)
             apply_forms(ctx, 'series.iter_group', s.iter_group_items, s.iter_group, len, items, info)
@@ -378,7 +379,7 @@ def run_label_group(case, ctx):
                 if n:
                     apply_forms(ctx, f'series.iter_group_labels|depth={depth}', lambda: s.iter_group_labels_items(depth), lambda: s.iter_group_labels(depth), len, items, info)
                 check_partition(ctx, f'series.iter_group_labels_items|depth={depth}', items, keys, list(tuples), [(norm(i),) for i in range(n)],
-                                lambda g: [tuple(t) for t in g.index], lambda g: [(norm(v),) for v in g.values.tolist()], info)
+                                lambda g: [tuple(t) for t in g.index], lambda g: [(norm(v),) for v in g.values], info)
                 items = list(ft.iter_group_labels_items(depth, axis=1))
                 check_partition(ctx, f'frame.iter_group_labels_items|axis=1|depth={depth}', items, keys, list(tuples), frame_cols(ft),
                                 lambda g: [tuple(t) for t in g.columns], frame_cols, info)
